@@ -2799,6 +2799,9 @@ static Type check_expression_impl(ASTNode *expr, Environment *env) {
                     }
                 }
             }
+            if (temp_tc.has_error) {
+                g_typecheck_error_reported = true;  /* errors inside the block fail the type check */
+            }
             return block_type;
         }
 
